@@ -7,7 +7,7 @@ import re
 from . import e2_formula as F
 from . import op4_model as M
 from .core import AnchorError, Unsupported
-from .e1_srcmodel import dotted, walk_no_nested, parent, ancestors, enclosing_stmt
+from .e1_srcmodel import dotted, walk_no_nested, parent, ancestors, enclosing_stmt, utext
 from .e2_eval import Evaluator, is_unknown, need
 
 OP4, OP2 = M.OP4, M.OP2
@@ -354,15 +354,15 @@ def r3_sibling_decoders(ctx):
     # number of text lines per string: (L + perline - 1)//perline (skip) == (L - 1)//perline + 1 (read)
     sk = M.func(ctx, "OP4._skipop4_ascii")
     gb = M.func(ctx, "OP4._get_ascii_block")
-    a = ast.unparse(sk).replace(" ", "").count("nlines=(L+perline-1)//perline")
-    b = "nlines=(L-1)//perline+1" in ast.unparse(gb).replace(" ", "")
+    a = utext(sk).count("nlines=(L+perline-1)//perline")
+    b = "nlines=(L-1)//perline+1" in utext(gb)
     ctx.check(a == 2 and b, "_skipop4_ascii skips ceil(L / perline) lines per string, the number _get_ascii_block reads ((L + p - 1)//p == (L - 1)//p + 1 for L >= 1)", sk)
-    ok = ast.unparse(sk).replace(" ", "").count("nlines=(elems+perline-1)//perline") == 1
+    ok = utext(sk).count("nlines=(elems+perline-1)//perline") == 1
     ctx.check(ok, "_skipop4_ascii skips ceil(elems / perline) lines per dense column", sk)
-    t = ast.unparse(sk).replace(" ", "")
+    t = utext(sk)
     ok = "ifmtype&1:wper=1else:wper=2" in t.replace("\n", "")
     rd = M.func(ctx, "OP4._loadop4_ascii")
-    ok = ok and "wper=1ifmtype&1else2" in ast.unparse(rd).replace(" ", "")
+    ok = ok and "wper=1ifmtype&1else2" in utext(rd)
     ctx.check(ok, "ASCII skipper and loader derive words-per-value from the matrix type identically", sk)
 
 
@@ -372,13 +372,13 @@ def r4_read_equals_skip(ctx):
     ib = F.sym("ibytes")
     # rdop2matrix: 4 (reclen) + ibytes (row) + n * bytes_per + 4 ; with n = (reclen - ibytes)//bytes_per
     fn = ctx.src.func(OP2, "OP2.rdop2matrix")
-    t = ast.unparse(fn).replace(" ", "")
+    t = utext(fn)
     ok = "reclen=self._Str4.unpack(self._fileh.read(4))[0]" in t and "r=self._Str.unpack(self._fileh.read(intsize))[0]-1" in t \
         and "n=(reclen-intsize)//bytes_per" in t and "intsize=self._ibytes" in t and "self._fileh.read(n*bytes_per)" in t \
         and "np.fromfile(self._fileh,frm,n)" in t and "self._fileh.read(4)#endrec" not in t
     ctx.check(ok, "rdop2matrix: per record reads 4 + ibytes + n*bytes_per + 4 bytes with n = (reclen - ibytes)//bytes_per (= 4 + reclen + 4 for whole values)", fn)
     sk = ctx.src.func(OP2, "OP2.skipop2matrix")
-    t2 = ast.unparse(sk).replace(" ", "")
+    t2 = utext(sk)
     ok = "reclen=self._Str4.unpack(self._fileh.read(4))[0]" in t2 and "self._fileh.seek(reclen,1)" in t2 and t2.count("self._fileh.read(4)") >= 2
     ctx.check(ok, "skipop2matrix: per record skips 4 + reclen + 4 bytes", sk)
     # key structure identical
@@ -399,38 +399,38 @@ def r4_read_equals_skip(ctx):
     loops = [n for n in ast.walk(fn) if isinstance(n, ast.While) and ast.unparse(n.test).replace(" ", "") == "key>0"]
     ctx.check(len(loops) == 3, "rdop2record: three record loops (bytes, preallocated, list)", fn, len(loops), nontrivial=False)
     for lp in loops:
-        t = ast.unparse(lp).replace(" ", "")
+        t = utext(lp)
         reads = "reclen=self._Str4.unpack(f.read(4))[0]" in t and t.count("f.read(4)") >= 2 and "key=self._getkey()" in t
         if "data.append(f.read(reclen))" in t:
             payload = True
         else:
             payload = "n=reclen//bytes_per" in t and ("f.read(b)" in t and "b=n*bytes_per" in t) and "np.fromfile(f,frm,n)" in t
         ctx.check(reads and payload, "rdop2record loop: per record 4 + reclen + 4 bytes (payload read as n = reclen // bytes_per values of bytes_per bytes)", lp)
-    ok = ast.unparse(fn).replace(" ", "").count("self._skipkey(2)") == 2
+    ok = utext(fn).count("self._skipkey(2)") == 2
     ctx.check(ok, "rdop2record: two trailing keys are skipped on both exits", fn)
     sk = ctx.src.func(OP2, "OP2.skipop2record")
-    t = ast.unparse(sk).replace(" ", "")
+    t = utext(sk)
     ok = "self._fileh.seek(reclen+4,1)" in t and "reclen=self._Str4.unpack(self._fileh.read(4))[0]" in t and "self._skipkey(2)" in t and "whilekey>0" in t
     ctx.check(ok, "skipop2record: per record 4 + (reclen + 4) bytes, then the two trailing keys", sk)
     th = ctx.src.func(OP2, "OP2.rdop2tabheaders")
-    t = ast.unparse(th).replace(" ", "")
+    t = utext(th)
     ok = "head=Frm.unpack(self._fileh.read(3*self._ibytes))" in t and "self._fileh.seek((key-3)*self._ibytes,1)" in t and "Frm=struct.Struct(self._intstru%3)" in t
     ctx.check(ok, "rdop2tabheaders: per record 4 + 3*ibytes + (key - 3)*ibytes + 4 bytes (= 4 + key*ibytes + 4; reclen = key * ibytes)", th)
     gk = ctx.src.func(OP2, "OP2._getkey")
-    t = ast.unparse(gk).replace(" ", "")
+    t = utext(gk)
     ok = t.count("self._fileh.read(4)") == 2 and "self._Str.unpack(self._fileh.read(self._ibytes))[0]" in t
     ctx.check(ok, "_getkey: a key is 4 + ibytes + 4 bytes", gk)
     s2 = ctx.src.func(OP2, "OP2._skipkey")
-    ok = "self._fileh.read(n*(8+self._ibytes))" in ast.unparse(s2).replace(" ", "")
+    ok = "self._fileh.read(n*(8+self._ibytes))" in utext(s2)
     ctx.check(ok, "_skipkey(n): n keys of 8 + ibytes bytes", s2)
     # op4 binary skip vs read: record = 4 + reclen + 4
     sb = M.func(ctx, "OP4._skipop4_binary")
-    t = ast.unparse(sb).replace(" ", "")
+    t = utext(sb)
     ok = "reclen=self._Str_i4.unpack(self._fileh.read(4))[0]" in t and "icol=self._Str_i.unpack(self._fileh.read(bi))[0]" in t \
         and "self._fileh.seek(reclen+delta,1)" in t and "delta=4-bi" in t and "whileicol<=cols" in t
     ctx.check(ok, "_skipop4_binary: per column record 4 + bi + (reclen + 4 - bi) bytes; stops after the sentinel column cols + 1", sb)
     lb = M.func(ctx, "OP4._loadop4_binary")
-    ok = "nbytes=reclen-3*self._bytes_i+4" in ast.unparse(lb).replace(" ", "")
+    ok = "nbytes=reclen-3*self._bytes_i+4" in utext(lb)
     ctx.check(ok, "_loadop4_binary: after the sentinel header (3 words) the rest of the record and its marker are consumed", lb)
 
 
@@ -444,24 +444,24 @@ def r5_listing_equals_read(ctx):
         full = [r for r in rets if r not in lst and ast.unparse(r.value.elts[0]) == "name"]
         ok = len(full) == 1 and [ast.unparse(e) for e in full[0].value.elts] == ["name", "X", "form", "mtype"]
         ctx.check(ok, f"{q.split('.')[1]}: a full read returns (name, X, form, mtype) with the same name/form/type variables", fn)
-        t = ast.unparse(fn).replace(" ", "")
+        t = utext(fn)
         ok = "ifpatternlistandnamenotinpatternlist:skip=1else:skip=0" in t.replace("\n", "") and "iflistonlyorskip:" in t
         ctx.check(ok, f"{q.split('.')[1]}: a matrix is skipped exactly when listing or when its name is not in the requested list", fn)
     a = M.func(ctx, "OP4._loadop4_ascii")
     b = M.func(ctx, "OP4._loadop4_binary")
-    ok = "name=self._check_name(" in ast.unparse(a) and "name=self._check_name(" in ast.unparse(b).replace(" ", "").replace("name=self._check_name(", "name=self._check_name(")
+    ok = "name=self._check_name(" in ast.unparse(a) and "name=self._check_name(" in utext(b).replace("name=self._check_name(", "name=self._check_name(")
     ctx.check("self._check_name" in ast.unparse(a) and "self._check_name" in ast.unparse(b),
               "both loaders normalise names with _check_name before filtering (same names in listings, filters and reads)", a)
     for q in ("OP4.dctload", "OP4.listload", "OP4.dir"):
         fn = M.func(ctx, q)
-        t = ast.unparse(fn).replace(" ", "")
+        t = utext(fn)
         ok = "ifself._ascii:loadfunc=self._loadop4_asciielse:loadfunc=self._loadop4_binary" in t.replace("\n", "") and "ifnotname:break" in t.replace("\n", "")
         ctx.check(ok, f"{q.split('.')[1]}: iterates the same loader until it reports end of file", fn)
     # op2 directory vs rdop2matrix sizes
     d = ctx.src.func(OP2, "OP2.directory")
-    t = ast.unparse(d).replace(" ", "")
+    t = utext(d)
     mt = ctx.src.func(OP2, "OP2.rdop2matrix")
-    tm = ast.unparse(mt).replace(" ", "")
+    tm = utext(mt)
     ok = "rows=trailer[2]" in tm and "np.zeros((rows,trailer[1]),order='F')" in tm
     ctx.check(ok, "rdop2matrix allocates (trailer[2] rows, trailer[1] columns)", mt)
     ok = "trailer[2]" in t and "trailer[1]" in t
